@@ -337,6 +337,12 @@ void harness::run_case(const eng::Raw& raw, eng::Ctx& ctx)
 					W.log << W.step << ":ta." << name << "(h" << i << ",h" << j << ") ";
 					ref::TA val;
 					{ eng::LibSection ls(ctx, "tree:" + name + ":read"); val = lib::read(out, W.th[i]->GetAlphabet()); }
+					if (name == "GetCandidateTree") {
+						// whatever happened to this handle before, the witness must belong to its CURRENT value
+						ref::InclResult wr = ref::included(val, W.tm[i], 20000);
+						if (wr.verdict == ref::Tri::NO || (val.empty_lang() && !W.tm[i].empty_lang()))
+							ctx.fail("value:tree:GetCandidateTree:stale-or-wrong", "witness " + val.str() + " does not fit the handle's current value " + W.tm[i].str() + " [history: " + W.log.str() + "]");
+					}
 					Repeat rep; rep.op = name; rep.a = W.tm[i]; rep.b = W.tm[j]; rep.par = r[5]; rep.result = val;
 					W.repeats.push_back(rep);
 					W.tput(std::move(out), val, TREE_OP_SHARES[oi] ? W.tgrp[i] : W.nextGrp++, r[6]);
@@ -344,6 +350,8 @@ void harness::run_case(const eng::Raw& raw, eng::Ctx& ctx)
 				}
 				default: {  // verdict-producing calls
 					size_t i = pick(r[1]), j = pick(r[2]);
+					// half of the time between two handles that (potentially) share storage
+					if (r[5] % 2) for (size_t k = 0; k < W.th.size(); ++k) if (k != i && W.tgrp[k] == W.tgrp[i]) { j = k; break; }
 					what = "verdict";
 					W.log << W.step << ":ta.verdict(h" << i << ",h" << j << ") ";
 					Repeat rep; rep.isVerdict = true; rep.a = W.tm[i]; rep.b = W.tm[j]; rep.par = r[4];
